@@ -102,6 +102,12 @@ def families(tier):
             if i < len(seed):
                 mem.append(("delete %d" % i, seed[:i] + seed[i + 1:]))
         fams.append(("edit1:" + seed, mem))
+    runs = []
+    for ch in "+-@H:0#=/\\%.()1Cc*$":
+        for n in (1, 2, 5, 10, 15, 20, 24, 28, 32, 40, 100, 1000):
+            for t in ("[N%s]", "[N%s?]", "C[C%s?]C", "C%sC", "[%sN]", "C%%%s", "c1cc[n%s?]c1", "[C@%s](F)(Cl)Br", "[CH%s?]"):
+                runs.append(("%r x %d in %s" % (ch, n, t), t % (ch * n)))
+    fams.append(("long-runs", runs))
     # every element of the periodic table, upper and lower case, in every role an atom can play (the element tables for
     # aromaticity, valence electrons and organic-subset membership are separate hand-written tables)
     from mc.oracles.misc import ELEMENTS
